@@ -319,6 +319,14 @@ def plan_history(i):
             if fired and len(img2) >= 2 and int.from_bytes(img2[:2], "little") != W["host_magic"]:
                 img = img2
                 faulted = True
+        if not faulted and rng.chance(1, 12) and len(img) > 8:
+            # the same payload stored under another known magic number (an interim release, a sibling of the same
+            # release, another implementation): not a fault - files like this exist - but whatever the loader makes
+            # of it, it must make the same of it every time
+            m = rng.choice(W["magics"])
+            if m != W["host_magic"] and m != base.magic_int:
+                img = int(m & 0xFFFF).to_bytes(2, "little") + img[2:]
+                faulted = True
         sha = core.sha256_hex(img)
         h.images[sha] = img
         name = slot_name(slot, base.name)
@@ -688,7 +696,7 @@ def interp_state():
     cur = _raw_interp()
     out = {"stdout_is_node_stream": st is None or sys.stdout is st.out,
            "stderr_is_node_stream": st is None or sys.stderr is st.err,
-           "recursion_limit_leak": core.FixedHeadroom.LEAK}
+           "recursion_limit_unchanged": core.FixedHeadroom.LEAK == 0}
     for k in sorted(cur):
         out[k + "_unchanged"] = (k not in base) or (cur[k] is base[k]) or (cur[k] == base[k])
     return out
@@ -1354,11 +1362,14 @@ def main(opts):
                         len(tot["distinct"]), tot["ref_misses"], tot["ref_hits"], wall))
     if not det_ok:
         core.log("[C18] HARNESS-ERROR: determinism self-test mismatch")
-        return core.EXIT_HARNESS
     if fresh_bad:
         core.log("[C18] HARNESS-ERROR: fork-of-zygote reference differs from a fresh interpreter: %s" % fresh_bad[:2])
+    if n_unknown:
+        # a real violation may itself make behaviour depend on the harness layout; the violation is the verdict
+        return core.EXIT_VIOLATION
+    if not det_ok or fresh_bad:
         return core.EXIT_HARNESS
-    return core.EXIT_VIOLATION if n_unknown else core.EXIT_OK
+    return core.EXIT_OK
 
 
 def replay(path):
